@@ -49,7 +49,7 @@
     X(num_bad_no_more, "numeric.malformed.no_more.counted_only") X(num_bad_no_more_before_bad, "numeric.malformed.no_more_before_first_bad_entry.counted_only") X(num_lenient_calls, "numeric.lenient.calls") \
     X(ch_ok, "channel.wellformed.ok") X(ch_ok_range, "channel.wellformed.ok_range") X(ch_ok_multidim, "channel.wellformed.ok_multidim") X(ch_no_more, "channel.wellformed.no_more_nothing_queued") \
     X(ch_cap_lt, "channel.wellformed.ok_capacity_lt_dimensions") X(ch_cap_gt, "channel.wellformed.ok_capacity_gt_dimensions") X(gen_long_entry, "generated.entries_spelled_with_40_to_320_characters") X(ch_cap0_null, "channel.capacity0_null_arrays") X(ch_cap0_cell, "channel.capacity0_zero_size_cells") \
-    X(ch_val_cmp, "channel.values_compared") X(ch_val_skip, "channel.values_out_of_int32.not_compared") X(ch_to_touched, "channel.single_value_to_modified.counted_only") \
+    X(ch_val_cmp, "channel.values_compared") X(ch_val_skip, "channel.values_out_of_int32.not_compared") X(ch_to_touched, "channel.single_value_to_modified.counted_only") X(ch_spare_touched, "channel.cells_within_capacity_behind_the_dimensions_modified.counted_only") \
     X(ch_bad_ok_prefix, "channel.malformed.ok_for_wellformed_prefix") X(ch_bad_error_prefix, "channel.malformed.error_170_for_wellformed_prefix") X(ch_bad_error_170, "channel.malformed.error_with_170") \
     X(ch_noat_error_170, "channel.no_at.error_with_170") X(ch_lenient_calls, "channel.lenient.calls") X(ch_nonok_touched, "channel.arrays_modified_on_non_ok.within_capacity.counted_only") \
     X(ok_with_error, "any.ok_with_error_queued.counted_only") X(err_cb_other, "any.error_callback_other_code") \
@@ -77,7 +77,7 @@ static uint64_t cn[CN__N];
     X(ch_garbage, "C19:channel-entry-ok-with-trailing-garbage") X(ch_bad_range, "C19:channel-malformed-range-ok") X(ch_bad_spec, "C19:channel-malformed-spec-ok") X(ch_bad_entry, "C19:channel-malformed-entry-ok") \
     X(ch_after_bad, "C19:channel-entry-ok-after-malformed-entry") X(ch_beyond, "C19:channel-entry-ok-beyond-end") X(ch_no_at, "C19:channel-entry-ok-without-at") \
     X(ch_not_ok, "C19:channel-wellformed-entry-not-ok") X(ch_isrange, "C19:channel-isrange") X(ch_dims, "C19:channel-dimensions") X(ch_values, "C19:channel-values") \
-    X(ch_stray, "C19:channel-stray-store-within-capacity") X(ch_beyond_cap, "C19:channel-store-beyond-capacity") X(ch_nomore, "C19:channel-no-more-expected") X(ch_nomore_err, "C19:channel-no-more-with-error-queued") \
+    X(ch_beyond_cap, "C19:channel-store-beyond-capacity") X(ch_nomore, "C19:channel-no-more-expected") X(ch_nomore_err, "C19:channel-no-more-with-error-queued") \
     X(ch_bad_nomore, "C19:malformed-channel-list-no-more") X(ch_bad_no170, "C19:malformed-channel-list-error-without-170") X(bad_result, "C19:result-code-out-of-range")
 enum {
 #define X(id, name) K_##id,
@@ -456,8 +456,8 @@ static void check_channel(cx_t * c, int idx, int cap, int null_arrays) {
                     else CNT(ch_val_skip);
                 }
             }
-            for (k = m; k < cap; k++) /* cells beyond min(capacity, dimensions) keep their fill */
-                if ((uint32_t) vf[k] != 0xA5A5A5A5u || (e->is_range && (uint32_t) vt[k] != 0xA5A5A5A5u)) { VIOL(K_ch_stray, "SCPI_ExprChannelListEntry(\"(%s)\", index %d, capacity %d): cell %d modified, entry \"%s\" has %d dimension(s)", vh_esc(c->body, (size_t) c->len), idx, cap, k, vh_esc(c->body + e->off, (size_t) e->len), e->ndim); goto out; }
+            for (k = m; k < cap; k++) /* cells within the announced capacity but behind the entry's dimensions are the caller's scratch space as far as the statement goes ("never stored beyond the dimension capacity"): counted, not judged */
+                if ((uint32_t) vf[k] != 0xA5A5A5A5u || (e->is_range && (uint32_t) vt[k] != 0xA5A5A5A5u)) { CNT(ch_spare_touched); break; }
             if (!e->is_range) for (k = 0; k < cap; k++) if ((uint32_t) vt[k] != 0xA5A5A5A5u) { CNT(ch_to_touched); break; }
         } else {
             if (res != SCPI_EXPR_NO_MORE) { VIOL(K_ch_nomore, "SCPI_ExprChannelListEntry(\"(%s)\", index %d, capacity %d) = %s, the list is well formed and has only %d entries", vh_esc(c->body, (size_t) c->len), idx, cap, res_name(res), rl->npieces); goto out; }
